@@ -24,27 +24,34 @@ from .. import core, tlc
 from .. import nodecache_driver as drv
 
 SPEC_DIR = os.path.join(core.SPECS, 'node')
-INVARIANTS = ['InvAtomic', 'InvAtomicStep', 'InvNoExtra', 'InvPresent', 'InvContent',
+INVARIANTS = ['InvAtomic', 'InvAtomicStep', 'InvNoExtra', 'InvPresent', 'InvContent', 'InvRefresh',
               'InvTmpClean', 'TypeOK']
 
 RULE = ('a history counts when the recorded run contains a step that exercises a clause: an '
         'os.replace onto an instance name, the unlink of an extra entry, or a crash / I/O error cut '
-        'inside a sync; distinct = distinct histories (events, interleaving positions and cut)')
+        'inside a sync; distinct = distinct histories (events, interleaving positions, cut, near-by '
+        'time stamps, run() mode)')
 
 ASSUMPTIONS = [
-    'EventMgr._synchronize/_cache/_cache_notify are called directly with the children of '
-    '/placement/<host> as the ChildrenWatch would deliver them (first call after a start: '
-    'check_existing=True); run() (watch registration, heartbeat loop) is not driven',
+    'EventMgr._synchronize/_cache/_cache_notify are called with the children of /placement/<host> as '
+    'the ChildrenWatch would deliver them; for about half of the process starts the first call is made '
+    'by the real EventMgr.run(once=True) on the fake client (its own check_existing), with time.sleep, '
+    'utils.sys_exit and the context connection replaced and the presence node present; the other '
+    'starts and all later syncs are direct calls (check_existing = first call after a start)',
     'the cache directory is a real directory; a crash is a forked child that os._exit()s inside the '
     'k-th recorded call, so what the parent then lists is what the kernel holds (no power-loss / '
     'fsync semantics: data of a completed write() or close() is assumed durable)',
-    'the order of a placement node\'s ctime and a cache file\'s ctime is chosen by the environment '
-    '(node created far in the past or far in the future of every file): the two clocks are independent',
+    'the order of a placement node\'s ctime and a cache file\'s ctime is chosen by the environment: '
+    'node created 10^7 s before/after every file, or 0.03-0.5 s before/after the instance\'s file inside '
+    'the same integer second; "older" is the real comparison st_ctime < ctime_ms/1000.0',
     'only the event manager writes instance names into cache/ (appcfgmgr removing a cache file '
     'concurrently is not modelled)',
     'manifests and placement payloads are JSON mappings as the master writes them',
     '"written by the synchronisation" = renamed into place by this sync; "undisturbed" = the expected '
     'list equals the children at the start and no ZooKeeper change happens before the sync returns',
+    'C12.refresh: the first synchronisation of a process life must leave every entry that was older '
+    'than its placement node holding manifest + current placement data (outdated prior files are in '
+    'the property\'s quantifier; later syncs and payload updates that keep the node\'s ctime are not judged)',
 ]
 
 
@@ -113,6 +120,24 @@ GEN = dict(insts=I3, mvers=[1, 2], pvers=[0, 1, 2], prior=[(1, 1), (2, 2), (1, 0
 GEN_BOUNDS = dict(setup=7, env=3, conc=2, crash=1, err=1, sync=99, writes=2, prior=1)
 
 
+# a few directed histories: the situations check_existing exists for (a file
+# older than its re-created placement node when the agent starts), with far and
+# near-by time stamps, through the driver's direct call and through run()
+def _outdated(near, run, new=True):
+    return [['PriorFile', 'i1', 1, 1], ['PriorFile', 'i2', 2, 2], ['SetMan', 'i1', 1], ['SetMan', 'i2', 2],
+            ['Place', 'i2', 2, False, near], ['Place', 'i1', 2, new, near], ['Boot'], ['Sync', dict(run=run)]]
+
+
+DIRECTED = [_outdated(near, run) for near in (False, True) for run in (False, True)] + [
+    _outdated(True, True, new=False),
+    # placed, cached, agent dies, instance evicted and placed again within the same second, agent restarts
+    [['SetMan', 'i1', 1], ['Place', 'i1', 1, False], ['Boot'], ['Sync', dict(run=True)], ['Crash'],
+     ['Unplace', 'i1'], ['Place', 'i1', 3, True, True], ['Restart'], ['Sync', dict(run=True)]],
+    [['SetMan', 'i1', 3], ['Place', 'i1', 3, False], ['Boot'], ['Sync', {}], ['Crash'],
+     ['Unplace', 'i1'], ['SetMan', 'i1', 1], ['Place', 'i1', 1, True, True], ['Restart'], ['Sync', {}]],
+]
+
+
 def _mc_one(ctx, name, consts, bounds):
     mod, cfg, files = mc_files(name, bounds=bounds, **consts)
     return tlc.mc(SPEC_DIR, mod, cfg, extra_files=files, coverage=True, workers=8,
@@ -149,8 +174,9 @@ def _gen(ctx, behaviours, cmd):
     """Step 2: behaviours of the same spec + seeded random histories."""
     n_rnd = 100 if ctx.quick else 600
     ctx.cmds.append(cmd)
-    out = [('tlc', drv.from_labels(b)) for b in behaviours]
     rng = random.Random(ctx.seed * 7919 + 12)
+    out = [('dir', copy.deepcopy(h)) for h in DIRECTED]
+    out += [('tlc', drv.vary(drv.from_labels(b), rng)) for b in behaviours]
     for k in range(n_rnd):
         out.append(('rnd', drv.gen_random(rng, insts=rng.choice([2, 3, 3, 5]))))
     return out
@@ -377,6 +403,19 @@ MUTANTS = [
     ('no-placement-merge', 'eventmgr.py',
      [("                manifest.update(placement_data)\n", "                pass\n")], 'C12.content'),
     ('tmp-without-dot', 'eventmgr.py', [("prefix='.%s-' % app,", "prefix='%s-' % app,")], 'C12.atomic'),
+    ('ctime-truncated', 'eventmgr.py',
+     [("placement_time = placement_metadata.ctime / 1000.0", "placement_time = placement_metadata.ctime // 1000")],
+     'C12.refresh'),
+    ('ready-before-watch', 'eventmgr.py',
+     [('''                zkclient.ChildrenWatch(
+                    z.path.placement(self._hostname), _app_watch
+                )
+                placement_ready.set()
+''', '''                placement_ready.set()
+                zkclient.ChildrenWatch(
+                    z.path.placement(self._hostname), _app_watch
+                )
+''')], 'C12.refresh'),
 ]
 
 
